@@ -59,7 +59,7 @@ ITEMS = [
     dict(src=SR, path='impl YamlSerializer/fn newline', props=['C20'],
          ensures=[('appends_newline', 'r is Ok ==> final(self).out.text() == old(self).out.text().push(\'\\n\')'),
                   ('frame', 'final(self).in_flow == old(self).in_flow && final(self).pending_inline_comment == old(self).pending_inline_comment'),
-                  ('frame_block', 'same_block_cfg(final(self), old(self)) && final(self).doc_started == old(self).doc_started && final(self).pending_space_after_colon == old(self).pending_space_after_colon'),
+                  ('frame_block', 'same_block_cfg(final(self), old(self)) && final(self).doc_started == old(self).doc_started && final(self).pending_space_after_colon == old(self).pending_space_after_colon && final(self).last_scalar_kept_breaks == old(self).last_scalar_kept_breaks'),
                   ('next_write_is_at_a_line_start', 'r is Ok ==> final(self).at_line_start')]),
     _on_sink(dict(src=SR, path='impl YamlSerializer/fn write_quoted', props=['C12', 'C01'], loop_rewrites=CHARS,
          rewrites=[(r'write!\(self\.out, "\\\\x\{:02X\}", c as u32\)\?', 'self.out.write_x2(c as u32)?', None, 'R12'),
@@ -204,7 +204,8 @@ ITEMS = [
     # ---- block scalars: automatic selection, header and body as written by serialize_str (C12 / C20) ----
     dict(src=SR, path='impl YamlSerializer/fn write_space_if_pending', props=['C12', 'C20', 'C01'],
          ensures=[('writes_the_space_owed_after_a_colon', "r is Ok ==> final(self).out.text() == (if old(self).pending_space_after_colon { old(self).out.text().push(' ') } else { old(self).out.text() })"),
-                  ('frame', 'r is Ok ==> same_block_cfg(final(self), old(self)) && !final(self).pending_space_after_colon && final(self).at_line_start == old(self).at_line_start')]),
+                  ('frame', 'r is Ok ==> same_block_cfg(final(self), old(self)) && !final(self).pending_space_after_colon && final(self).at_line_start == old(self).at_line_start'),
+                  ('C20:any_other_scalar_clears_the_keep_mark', 'r is Ok ==> !final(self).last_scalar_kept_breaks')]),
     dict(src=SR, path='impl YamlSerializer/fn write_indent', props=['C12', 'C20', 'C01'], loop_rewrites=[(1, 'range')],
          requires=[('indent_fits', 'old(self).indent_step * depth <= usize::MAX')],
          proofs=[dict(at='start', ghost=True, text='let ghost t0 = self.out.text();'),
@@ -287,6 +288,8 @@ ITEMS = [
             # ---- both styles, just before the style character is written ----
             dict(before="self.out.write_char('|')?;", label='C12:a_block_scalar_is_chosen_only_for_text_it_can_carry_unchanged', text='assert(block_text_ok(v@));'),
             dict(before="self.out.write_char('>')?;", label='C12:a_block_scalar_is_chosen_only_for_text_it_can_carry_unchanged', text='assert(block_text_ok(v@));'),
+            dict(before="self.out.write_char('|')?;", label='C20:no_block_scalar_is_written_inside_a_flow_collection', text='assert(self.in_flow == 0);'),
+            dict(before="self.out.write_char('>')?;", label='C20:no_block_scalar_is_written_inside_a_flow_collection', text='assert(self.in_flow == 0);'),
             dict(before="self.out.write_char('|')?;", label='C20:a_block_scalar_carries_the_anchor_staged_for_it', props=['C20'], text='assert(anchor_in is None);'),
             dict(before="self.out.write_char('>')?;", label='C20:a_block_scalar_carries_the_anchor_staged_for_it', props=['C20'], text='assert(anchor_in is None);'),
             dict(before="self.out.write_char('|')?;", label='C20:an_automatic_literal_is_chosen_only_for_multi_line_text', text="assert(!explicit_in ==> exists|i: int| 0 <= i < v@.len() && v@[i] == '\\n');"),
@@ -315,17 +318,19 @@ ITEMS = [
                  text="""lemma_literal_reads_back(v@); lemma_lit_lines_shape(v@); lemma_blt_empty(fold_spaces(body_col));
                       assert(self.out.text() =~= t2 + block_lines_text(fold_spaces(body_col), lit_lines(v@)));
                       assert(lit_value(lit_lines(v@), chomp_of(tl)) =~= v@);"""),
+            dict(before_re=r'\}\s*StrStyle::Folded\s*=>', label='C20:a_literal_scalar_that_keeps_its_final_line_breaks_is_marked_for_space_after',
+                 text='assert(self.last_scalar_kept_breaks == (tl >= 2));'),
             # ---- folded header ----
             dict(before='self.write_folded_block(v, body_base)?;', label='C20:folded_header_gives_the_indentation_relative_to_the_parent_node',
                  text="""assert(has_ind ==> 1 <= body_col - pcol <= 9);
                       assert(self.out.text() =~= t1 + block_header('>', has_ind, body_col - pcol, if explicit_in { Chomp::Clip } else { chomp_of(tl) }) + seq!['\\n']);"""),
          ],
          loops={1: dict(invariant=[('indent', '__i1 <= __n1 && __n1 == spaces && indent_buf@ =~= fold_spaces(__i1 as int)')], decreases='__n1 - __i1'),
-                2: dict(invariant=[('lines_so_far', """indent_str@ =~= fold_spaces(body_col) && __i2 <= __v2@.len() && __v2@.len() == split_lines(cont).len()
+                2: dict(invariant=[('lines_so_far', """self.last_scalar_kept_breaks == (tl >= 2) && indent_str@ =~= fold_spaces(body_col) && __i2 <= __v2@.len() && __v2@.len() == split_lines(cont).len()
                                     && (forall|i: int| 0 <= i < __v2@.len() ==> (#[trigger] __v2@[i])@ == split_lines(cont)[i])
                                     && self.out.text() =~= t2 + block_lines_text(fold_spaces(body_col), split_lines(cont).take(__i2 as int))""")],
                         decreases='__v2@.len() - __i2'),
-                3: dict(invariant=[('kept_breaks_so_far', """indent_str@ =~= fold_spaces(body_col) && __i3 <= __n3 && __n3 == tl - 1
+                3: dict(invariant=[('kept_breaks_so_far', """self.last_scalar_kept_breaks == (tl >= 2) && indent_str@ =~= fold_spaces(body_col) && __i3 <= __n3 && __n3 == tl - 1
                                     && self.out.text() =~= t2 + block_lines_text(fold_spaces(body_col), (if cont.len() == 0 { Seq::<Seq<char>>::empty().push(Seq::<char>::empty()) } else { split_lines(cont) }) + empties(__i3 as nat))""")],
                         decreases='__n3 - __i3')},
          ),
@@ -470,4 +475,13 @@ ITEMS = [
          ensures=[('C12:a_float_is_written_as_nan_inf_or_the_formatter_digits_normalised_to_yaml_float_grammar',
                    'r is Ok ==> final(target)@ =~= old(target)@ + float_text(f)')],
          canaries=['C12:a_float_is_written_as_nan_inf_or_the_formatter_digits_normalised_to_yaml_float_grammar']),
+    # ---- SpaceAfter (C20): the blank line must not become content of a block scalar that keeps its final line breaks ----
+    dict(src=SR, path='impl Serializer for &mut YamlSerializer/fn serialize_newtype_struct', id='YamlSerializer::serialize_newtype_struct#space_after', props=['C20', 'C01'],
+         impl_header="impl<'a> YamlSerializer<'a>",
+         fragment=r'self\.last_scalar_kept_breaks = false;\s*let result = value\.serialize\(&mut \*self\);.*?return result;', fragment_flags='S',
+         wrapper='fn space_after_fragment(&mut self, value: SerVal) -> Result<(), SerError> { {FRAG} }',
+         pre_rewrites=[(r'let result = value\.serialize\(&mut \*self\);', 'let result = ser_value(value, self);', 1, 'R8')],
+         proofs=[dict(before_re=r'self\.newline\(\)\?;', label='C20:the_blank_line_of_space_after_is_never_added_after_a_scalar_that_keeps_its_final_line_breaks_nor_in_flow_context',
+                      text='assert(!self.last_scalar_kept_breaks && self.in_flow == 0);')],
+         ensures=[('the_result_of_the_value_is_passed_on', 'r is Ok ==> true')]),
 ]
